@@ -51,6 +51,100 @@ theorem upd_other (ch : Nib → Node) (i j : Nib) (t : Node) (h : j ≠ i) : upd
 
 @[simp] theorem emptyCh_apply (i : Nib) : emptyCh i = .empty := rfl
 
+/-! ### counting children -/
+
+theorem countP_split {α : Type} [DecidableEq α] (p : α → Bool) (x : α) :
+    ∀ l : List α, l.Nodup → x ∈ l →
+      l.countP p = (if p x then 1 else 0) + l.countP (fun i => decide (i ≠ x) && p i) := by
+  intro l
+  induction l with
+  | nil => intro _ h; cases h
+  | cons a l ih =>
+    intro hnd hx
+    rw [List.nodup_cons] at hnd
+    obtain ⟨hal, hnd⟩ := hnd
+    by_cases hxa : a = x
+    · subst hxa
+      have : l.countP (fun i => decide (i ≠ a) && p i) = l.countP p := by
+        apply List.countP_congr
+        intro i hi
+        have : i ≠ a := fun e => hal (e ▸ hi)
+        simp [this]
+      rw [List.countP_cons, List.countP_cons, this]
+      simp
+      omega
+    · have hx' : x ∈ l := by
+        rcases List.mem_cons.mp hx with h | h
+        · exact (hxa h.symm).elim
+        · exact h
+      rw [List.countP_cons, List.countP_cons, ih hnd hx']
+      simp [hxa]
+      omega
+
+/-- number of non-empty children other than `x` -/
+def cntOther (ch : Nib → Node) (x : Nib) : Nat :=
+  (List.finRange 16).countP (fun i => decide (i ≠ x) && !(ch i).isEmpty)
+
+theorem countCh_eq (ch : Nib → Node) (x : Nib) :
+    countCh ch = (if (ch x).isEmpty then 0 else 1) + cntOther ch x := by
+  unfold countCh cntOther
+  rw [countP_split _ x _ (List.nodup_finRange 16) (List.mem_finRange x)]
+  cases (ch x).isEmpty <;> simp
+
+theorem cntOther_upd (ch : Nib → Node) (x : Nib) (n : Node) : cntOther (upd ch x n) x = cntOther ch x := by
+  unfold cntOther
+  apply List.countP_congr
+  intro i _
+  by_cases h : i = x <;> simp [h, upd]
+
+theorem countCh_upd (ch : Nib → Node) (x : Nib) (n : Node) :
+    countCh (upd ch x n) = (if n.isEmpty then 0 else 1) + cntOther ch x := by
+  rw [countCh_eq _ x, cntOther_upd, upd_same]
+
+theorem cntOther_eq_zero {ch : Nib → Node} {x : Nib} :
+    cntOther ch x = 0 ↔ ∀ i, i ≠ x → (ch i).isEmpty = true := by
+  unfold cntOther
+  rw [List.countP_eq_zero]
+  constructor
+  · intro h i hi
+    have := h i (List.mem_finRange i)
+    simpa [hi] using this
+  · intro h i _
+    by_cases hi : i = x
+    · simp [hi]
+    · simp [h i hi]
+
+theorem cntOther_pos {ch : Nib → Node} {x i : Nib} (hi : i ≠ x) (hne : (ch i).isEmpty = false) :
+    1 ≤ cntOther ch x := by
+  apply Nat.pos_of_ne_zero
+  intro h
+  have := cntOther_eq_zero.mp h i hi
+  simp [hne] at this
+
+@[simp] theorem countCh_emptyCh : countCh emptyCh = 0 := by
+  unfold countCh
+  rw [List.countP_eq_zero]
+  intro i _
+  simp [Node.isEmpty]
+
+@[simp] theorem cntOther_emptyCh (x : Nib) : cntOther emptyCh x = 0 :=
+  cntOther_eq_zero.mpr (fun _ _ => rfl)
+
+theorem firstCh_some {ch : Nib → Node} {i : Nib} (h : firstCh ch = some i) : (ch i).isEmpty = false := by
+  have := List.find?_some h
+  simpa using this
+
+theorem firstCh_none {ch : Nib → Node} (h : firstCh ch = none) : countCh ch = 0 := by
+  unfold firstCh at h
+  unfold countCh
+  rw [List.find?_eq_none] at h
+  rw [List.countP_eq_zero]
+  intro i hi
+  exact h i hi
+
+theorem WFn_ne_empty {n : Node} (h : WFn n) : n.isEmpty = false := by
+  cases n <;> simp [WFn, Node.isEmpty] at h ⊢
+
 /-! ### `lookup` unfolding -/
 
 @[simp] theorem lookup_empty (q : List Nib) : lookup .empty q = none := by simp [lookup]
